@@ -164,7 +164,10 @@ def run_case(case):
                 out.fail('mismatch:noise_free_total:' + tag, 'noise-free measurements of %d records gave total %r' % (N, got))
 
     if target == 'factored':
-        eng = mbi.FactoredInference(domain, iters=1)
+        eng = mbi.FactoredInference(domain, iters=1, warm_start=bool(case['N'] % 2))
+        if case['data_seed'] % 3 == 0:
+            eng.estimate(ms, total=(given or 1) * 3 + 7)        # the same estimator was used before with another total
+            out.classes.append('prior_call_other_total')
         model = eng.estimate(ms, total=given)
         check_total(model.total, 'factored')
         if out.ok:
